@@ -581,6 +581,9 @@ func runStatsFiles(ctx *core.Ctx, c05 bool) {
 				for i := w; i < ctx.Scale(240, 6000); i += workers {
 					c05DictFile(ctx, b, fmt.Sprintf("statsdict#%d", i))
 				}
+				for i := w; i < ctx.Scale(400, 6000); i += workers {
+					c05MultiFile(ctx, b, fmt.Sprintf("statsmulti#%d", i))
+				}
 			}
 			for i := 0; i < nfiles/workers; i++ {
 				f := c05GenFile(r, fmt.Sprintf("statsfiles/%d#%d", w, i))
@@ -672,6 +675,7 @@ func c05CheckData(ctx *core.Ctx, b *c05Batch, f *c05File, data []byte, c05 bool,
 	allPages := make([][]c05ReadPage, len(c05Cols)) // C06: the pages of every row group one after the other
 	allShort := make([]bool, len(c05Cols))
 	allRead := make([]int, len(c05Cols))
+	members := make([][]c05MultiMember, len(c05Cols)) // C05: every column's chunks with their pages, for the MultiRowGroup view
 	for g, rg := range rgs {
 		chunks := rg.ColumnChunks()
 		md := pf.Metadata().RowGroups[g].Columns
@@ -711,6 +715,7 @@ func c05CheckData(ctx *core.Ctx, b *c05Batch, f *c05File, data []byte, c05 bool,
 			}
 			if c05 {
 				c05CheckChunk(ctx, b, &kk, col, f, data, chunks[ci], raw, &md[ci].MetaData, pages, detail)
+				members[ci] = append(members[ci], c05MultiMember{cc: chunks[ci], pages: pages})
 			} else {
 				short := raw != nil && len(raw.MinValues) != len(raw.NullPages)
 				c06CheckChunk(ctx, &kk, col, f, chunks[ci], short, pages, detail, "")
@@ -745,6 +750,33 @@ func c05CheckData(ctx *core.Ctx, b *c05Batch, f *c05File, data []byte, c05 bool,
 				return m
 			}
 			c06CheckChunk(ctx, &kk, col, f, mchunks[ci], allShort[ci], allPages[ci], detail, " multi-row-group")
+		}
+	}
+	if c05 && len(rgs) > 1 {
+		// C05: the statistics a reader gets for the same column through MultiRowGroup (entries of the members, order
+		// claim recomputed across the row group borders) must satisfy the property like a file's own column index
+		var mchunks []parquet.ColumnChunk
+		if p := c05Recover(func() { mchunks = parquet.MultiRowGroup(rgs...).ColumnChunks() }); p != nil || len(mchunks) != len(c05Cols) {
+			ctx.Fail("L1", "multi-row-group-failed", fmt.Sprint(p), base)
+			return
+		}
+		for ci, col := range c05Cols {
+			if (f.only != "" && f.only != col.name) || len(members[ci]) != len(rgs) || f.skip[col.name] {
+				continue
+			}
+			kk := *c05KindByName(col.kind)
+			kk.typ = mchunks[ci].Type()
+			detail := func(extra map[string]any) map[string]any {
+				m := map[string]any{"op": "file", "column": col.name, "kind": col.kind, "pages": f.colText(ci), "multi_row_group": true, "row_groups": len(rgs)}
+				for k, v := range base {
+					m[k] = v
+				}
+				for k, v := range extra {
+					m[k] = v
+				}
+				return m
+			}
+			c05CheckMultiView(ctx, b, &kk, col.kind, f.lim, mchunks[ci], members[ci], detail)
 		}
 	}
 	total := 0
